@@ -122,6 +122,8 @@ class Decoder:
         if base == "DF396":
             width = self.attrs["NSat"] * self.attrs["NSig"]
         u = self.bits.field(self.off, width)
+        if getattr(self, "layout", None) is not None:
+            self.layout.append((base, typ, self.off, width))
         self.off += width
         if typ == "STR":  # consecutive code units joined into one string attribute
             self.attrs[base] = self.attrs.get(base, "") + ("" if u == 0 else chr(u))
@@ -179,6 +181,17 @@ class Decoder:
             return self.attrs
         self.walk(d, [])
         return self.attrs
+
+
+def field_layout(payload):
+    """[(field, type, bit offset, width)] of every bit field the reference interpreter reads from this payload, or None."""
+    try:
+        dec = Decoder(payload, 1)
+        dec.layout = []
+        dec.run()
+        return dec.layout
+    except Exception:  # noqa
+        return None
 
 
 def ref_decode(payload, labelmsm=1):
